@@ -61,14 +61,16 @@ impl FrameStore {
         if len == 0 {
             return None;
         }
-        if seq < self.base_seq {
-            return None;
+        // Fast path: in a gap-free window the frame sits at `seq - base_seq`.
+        if seq >= self.base_seq {
+            if let Ok(idx) = usize::try_from(seq - self.base_seq) {
+                if self.frames.get(idx).is_some_and(|event| event.seq == seq) {
+                    return Some(idx);
+                }
+            }
         }
-        let idx = usize::try_from(seq - self.base_seq).ok()?;
-        if idx >= len {
-            return None;
-        }
-        Some(idx)
+        // Windows with gaps, repeats or reordered seqs: never answer with a different frame.
+        self.frames.iter().rposition(|event| event.seq == seq)
     }
 }
 
